@@ -1,4 +1,4 @@
-import MesaModel.Model.CellSpace
+import MesaModel.Model.CellCollection
 /-!
 Line-protocol driver for the cell-space models (C06, C07, C18-cells).
 One output line per input line; see harness/cells_common.py for the producer and the grammar.
@@ -6,9 +6,16 @@ One output line per input line; see harness/cells_common.py for the producer and
   scenario grid <moore|vn|hex> <torus 0|1> <cap|-> <d1,d2,...>
   scenario net <directed 0|1> <cap|-> <n> [a-b ...]
   scenario vor <cap|-> <n> p:x,y ... t:a,b,c ...
+  scenario vor d <n> p:x,y ... t:a,b,c ... a:num/den ...   (default capacity_function; a: the exact cell areas, one per cell)
   new cell|fixed|g2d | set a c|- | moveto a c | moverel a key | move a Dir k | remove a
   tryrandom 0|1 | randempty d... | randcell d...      -> result | observation dump
   conns c | nbhd c r ic | nbprop c | mask c r ic | nbagents c r ic      -> result
+  connect c c2 key|- | disconnect c c2                                  -> result (`Cell.connect` / `disconnect`)
+  coll <expr> cells|agents|len|same | has c | get c | randcell d... | randagent d...      -> result (`CellCollection` API)
+      <expr> = <base>[+<filter>:<at_most>]...      base = all | empties | nb:<c>:<r>:<ic> | nbp:<c>
+      filter = none|empty|occupied|full|notfull    at_most = inf | <int> | <num>/<den> (the float num/den)
+      `all`, `empties` and their selections are compared in order; neighbourhood-based collections as sets
+      (the property does not fix the order inside a neighbourhood): cells / agents sorted, random picks by position
 -/
 open Mesa.Cells
 
@@ -41,6 +48,7 @@ def fmtErr : Err → String
   | .index => "err Index"
   | .script => "err Script"
   | .noAgent => "err NoAgent"
+  | .type => "err Type"
 
 def fmtRes : Res → String
   | .ok => "ok"
@@ -134,6 +142,26 @@ def parseScenario : List String → Option (Option Space)
     if es.all (fun (a, b) => a < n && b < n) then
       pure (some (netSpace d n es cap))
     else none
+  | "vor" :: "d" :: n :: rest => do
+    -- the default `capacity_function`: capacities come from the cell areas
+    let n ← n.toNat?
+    let pts := rest.filter (·.startsWith "p:")
+    let ts := rest.filter (·.startsWith "t:")
+    let ss := rest.filter (·.startsWith "s:")
+    let ars := rest.filter (·.startsWith "a:")
+    if ss.length > 1 || !(ss.all fun t => ((t.drop 2).toString.toNat?).isSome) then none else
+    if pts.length != n || ars.length != n || pts.length + ts.length + ss.length + ars.length != rest.length then none else
+    let _ ← pts.mapM (fun p => parseCoord (p.drop 2).toString)
+    let tris ← ts.mapM (fun t => parseTri (t.drop 2).toString)
+    let areas ← ars.mapM (fun a => match (a.drop 2).toString.splitOn "/" with
+      | [x, y] => do
+        let x ← x.toNat?
+        let y ← y.toNat?
+        if y = 0 then none else pure (x, y)
+      | _ => none)
+    if tris.all (fun (a, b, c) => a < n && b < n && c < n) then
+      pure (some (vorSpaceAreas n tris areas))
+    else none
   | "vor" :: cap :: n :: rest => do
     let cap ← parseOpt String.toNat? cap
     let n ← n.toNat?
@@ -152,6 +180,76 @@ def parseScenario : List String → Option (Option Space)
 
 def nbOf (sp : Space) (c : Coord) : List Coord := (sp.conn c).map (·.2)
 
+/-! ### collection expressions -/
+
+def parseFilt : String → Option (Option Filt)
+  | "none" => some none
+  | "empty" => some (some .empty)
+  | "occupied" => some (some .occupied)
+  | "full" => some (some .full)
+  | "notfull" => some (some .notFull)
+  | _ => none
+
+def parseAtMost (s : String) : Option AtMost :=
+  if s = "inf" then some .inf
+  else match s.splitOn "/" with
+    | [n] => (n.toInt?).map .int
+    | [a, b] => do
+      let a ← a.toNat?
+      let b ← b.toNat?
+      if b = 0 then none else pure (.frac a b)
+    | _ => none
+
+inductive Base where
+  | all
+  | empties
+  | nb (c : Coord) (r : Int) (ic : Bool)
+  | nbp (c : Coord)
+
+def parseBase (s : String) : Option Base :=
+  match s.splitOn ":" with
+  | ["all"] => some .all
+  | ["empties"] => some .empties
+  | ["nb", c, r, ic] => do pure (.nb (← parseCoord c) (← r.toInt?) (← parseBool ic))
+  | ["nbp", c] => do pure (.nbp (← parseCoord c))
+  | _ => none
+
+def parseSel (s : String) : Option (Option Filt × AtMost) :=
+  match s.splitOn ":" with
+  | [f, m] => do pure (← parseFilt f, ← parseAtMost m)
+  | _ => none
+
+def parseExpr (s : String) : Option (Base × List (Option Filt × AtMost)) :=
+  match s.splitOn "+" with
+  | [] => none
+  | b :: sels => do pure (← parseBase b, ← sels.mapM parseSel)
+
+/-- evaluate a collection expression: the cells, whether their order is fixed by the API (not a neighbourhood),
+    whether the last selection returned the collection itself, and the memo tables afterwards -/
+def evalExpr (sp : Space) (s : State) (cs : Caches Coord) (e : Base × List (Option Filt × AtMost)) :
+    Except Err (Coll × Bool × Bool × Caches Coord) :=
+  let base : Except Err (Coll × Bool × Caches Coord) :=
+    match e.1 with
+    | .all => .ok (sp.cells, true, cs)
+    | .empties => .ok (empties sp s, true, cs)
+    | .nb c r ic =>
+      if c ∈ sp.cells then
+        if r < 1 then .error .value
+        else let (v, cs') := getNbhd (nbOf sp) r.toNat ic c cs; .ok (v, false, cs')
+      else .error .key
+    | .nbp c =>
+      if c ∈ sp.cells then let (v, cs') := nbProp (nbOf sp) c cs; .ok (v, false, cs')
+      else .error .key
+  match base with
+  | .error err => .error err
+  | .ok (cells, ordered, cs') =>
+    let r := e.2.foldl (fun (acc : Coll × Bool) (fm : Option Filt × AtMost) =>
+      (select (fm.1.map fun f => f.eval sp s) fm.2 acc.1, selectIsSelf (fm.1.map fun f => f.eval sp s) fm.2)) (cells, false)
+    .ok (r.1, ordered, r.2, cs')
+
+def sortNats (l : List Nat) : List Nat := sortBy (fun (a b : Nat) => decide (a < b)) l
+def fmtNats (l : List Nat) : String := " ".intercalate (l.map toString)
+
 def stepLine (d : DSt) (ws : List String) : DSt × String :=
   match ws with
   | "scenario" :: rest =>
@@ -164,6 +262,57 @@ def stepLine (d : DSt) (ws : List String) : DSt × String :=
   | none => (d, if ws.isEmpty then "bad-op" else "err NoSpace")
   | some sp =>
     match ws with
+    | "coll" :: expr :: verb =>
+      match parseExpr expr with
+      | none => (d, "bad-op")
+      | some e =>
+        -- the verb is parsed before the collection is built, so a malformed line never touches the memo tables
+        let act : Option (Coll → Bool → Bool → Option String) :=
+          match verb with
+          | ["cells"] => some fun cells ord _ => some ("ok " ++ fmtCoords (if ord then cells else sortCoords cells))
+          | ["agents"] => some fun cells ord _ =>
+              some ("ok " ++ fmtNats (if ord then collAgents d.st cells else sortNats (collAgents d.st cells)))
+          | ["len"] => some fun cells _ _ => some s!"ok {cells.length}"
+          | ["same"] => if e.2.isEmpty then none else some fun _ _ same => some (if same then "ok 1" else "ok 0")
+          | ["has", c] => (parseCoord c).map fun c => fun cells _ _ =>
+              some (if c ∈ sp.cells then (if collHas cells c then "ok 1" else "ok 0") else "err Key")
+          | ["get", c] => (parseCoord c).map fun c => fun cells _ _ =>
+              some (if c ∈ sp.cells then
+                match collGet d.st cells c with
+                | some l => "ok " ++ ".".intercalate (l.map toString)
+                | none => "err Key"
+              else "err Key")
+          | "randcell" :: ds => (ds.mapM String.toNat?).map fun ds => fun cells ord _ =>
+              some (match selectRandomCell cells ds with
+                | .err er => fmtErr er
+                | .ok x pos used => (if ord then s!"ok {fmtCoord x}" else "ok") ++ s!" pos={pos}/{cells.length} used={used}")
+          | "randagent" :: ds => (ds.mapM String.toNat?).map fun ds => fun cells ord _ =>
+              some (match selectRandomAgent d.st cells ds with
+                | .err er => fmtErr er
+                | .ok x pos used => (if ord then s!"ok {x}" else "ok") ++ s!" pos={pos}/{(collAgents d.st cells).length} used={used}")
+          | _ => none
+        match act with
+        | none => (d, "bad-op")
+        | some f =>
+          match evalExpr sp d.st d.caches e with
+          | .error er => (d, fmtErr er)
+          | .ok (cells, ord, same, cs') =>
+            match f cells ord same with
+            | some out => ({ d with caches := cs' }, out)
+            | none => (d, "bad-op")
+    | ["connect", c, c2, key] =>
+      match parseCoord c, parseCoord c2, parseOpt parseCoord key with
+      | some c, some c2, some key =>
+        let (sp', r) := editSp sp (.connect c c2 key)
+        -- the memo tables are dropped when the edit was made (`_forget_neighborhoods`)
+        ({ d with sp := some sp', caches := if r = .ok then d.caches.forget c else d.caches }, fmtRes r)
+      | _, _, _ => (d, "bad-op")
+    | ["disconnect", c, c2] =>
+      match parseCoord c, parseCoord c2 with
+      | some c, some c2 =>
+        let (sp', r) := editSp sp (.disconnect c c2)
+        ({ d with sp := some sp', caches := if r = .ok then d.caches.forget c else d.caches }, fmtRes r)
+      | _, _ => (d, "bad-op")
     | ["conns", c] =>
       match parseCoord c with
       | none => (d, "bad-op")
